@@ -113,8 +113,10 @@ class Worker:
             env["VERIF_SAMPLE_EVERY"] = str(self.sample_every)
         env.update(self.extra_env)
         self.errf = open(self.err, "w")
-        self.proc = subprocess.Popen([self.binpath, "-test.run", "^TestWorker$", "-test.timeout", "0"], env=env,
-                                     stdout=subprocess.DEVNULL, stderr=self.errf, cwd=self.logdir)
+        args = [self.binpath, "-test.run", "^TestWorker$", "-test.timeout", "0"]
+        if os.environ.get("VERIF_COVERDIR"):  # tools/coverage.sh: a binary built with VERIF_COVER=1
+            args.append("-test.coverprofile=%s/%s.w%d.%d.cov" % (os.environ["VERIF_COVERDIR"], self.prop, self.wid, self.gen))
+        self.proc = subprocess.Popen(args, env=env, stdout=subprocess.DEVNULL, stderr=self.errf, cwd=self.logdir)
         _children.add(self.proc)
         self.pos = 0
         self.last_progress = time.time()
